@@ -424,7 +424,90 @@ class LateCloseScn:
         return None, out
 
 
-SCENARIOS = {"close": CloseScn, "both": BothCloseScn, "late": LateCloseScn}
+class FailedCloseScn:
+    """a close() that FAILS (its error object cannot be serialised) must leave the channel in a
+    consistent state: either still open, or closed with everything that means (waitclose returns,
+    receive raises EOFError); a later plain close() then ends the conversation for the peer"""
+
+    @staticmethod
+    def scenario(w, P):
+        S = Session(w, P.get("transport", "popen"), P.get("backend", "thread"))
+
+        def main():
+            gw = S.open()
+            em = S.proc.execmodel
+            ctl = gw.remote_exec("W = channel.gateway.execmodel.world\nc = channel.receive()\ngot = []\ntry:\n    while True:\n        got.append(c.receive(timeout=10))\nexcept EOFError:\n    W.observe('peer', got, 'EOF')\nexcept BaseException as e:\n    W.observe('peer', got, type(e).__name__)")
+            c = gw.newchannel()
+            ctl.send(c)
+            c.send(1)
+            w.exploring = True
+            try:
+                c.close(error=_ERRORS[P["error"]]())
+                w.observe("failed-close", "accepted")
+            except BaseException as e:  # noqa: BLE001
+                w.observe("failed-close", type(e).__name__)
+            st = {"isclosed": c.isclosed()}
+            if st["isclosed"]:
+                try:
+                    c.waitclose(2)
+                    st["waitclose"] = "returned"
+                except c.TimeoutError:
+                    st["waitclose"] = "TimeoutError"
+                except BaseException as e:  # noqa: BLE001
+                    st["waitclose"] = type(e).__name__
+            else:
+                try:
+                    c.send(2)
+                    st["send"] = "ok"
+                except OSError:
+                    st["send"] = "OSError"
+            try:
+                c.close()
+                st["second-close"] = c.isclosed()
+            except BaseException as e:  # noqa: BLE001
+                st["second-close"] = type(e).__name__
+            w.observe("state", st)
+            em.sleep(1.0)
+            try:
+                ctl.waitclose(10)
+                w.observe("ctl", "closed")
+            except BaseException as e:  # noqa: BLE001
+                w.observe("ctl", type(e).__name__)
+            w.exploring = False
+            w.observe("main-done")
+            S.group.terminate(timeout=5.0)
+
+        S.main(main)
+        return S
+
+    @staticmethod
+    def oracle(w, S, P):
+        obs = w.obs
+        out = tuple(e[0] for e in obs)
+        if ("main-done",) not in obs:
+            return ("c03:failed-close-hang", f"obs={obs} blocked={w.blocked_at_end}"), out
+        st = [e[1] for e in obs if e[0] == "state"][0]
+        if st["isclosed"] and st.get("waitclose") != "returned":
+            return ("c03:half-closed", f"after a close() that failed, isclosed() is true but waitclose() -> {st.get('waitclose')}: {obs}"), out
+        if not st["isclosed"] and st.get("send") != "ok":
+            return ("c03:half-closed", f"after a close() that failed, isclosed() is false but send -> {st.get('send')}: {obs}"), out
+        if st["second-close"] is not True:
+            return ("c03:half-closed", f"a plain close() after the failed one: {st['second-close']}"), out
+        peer = [e for e in obs if e[0] == "peer"]
+        want = [1] if st["isclosed"] else [1, 2]
+        if not peer or peer[0][2] not in ("EOF", "RemoteError") or peer[0][1] != want:
+            return ("c03:peer-never-told", f"the peer of a channel whose first close() failed and whose second close() succeeded saw {peer} (expected items {want}, then the end): {obs}"), out
+        return None, out
+
+
+class _Unserialisable:
+    pass
+
+
+_ERRORS = {"object": _Unserialisable, "exception": lambda: ValueError("boom")}
+
+
+SCENARIOS = {"close": CloseScn, "both": BothCloseScn, "late": LateCloseScn, "failedclose": FailedCloseScn}
 
 
 def stmt_pred(m, q, l):
@@ -488,6 +571,12 @@ def run(tier: str, only=None) -> int:
                 continue
             P = {"how": how, "transport": tr, "backend": be}
             harness.run_exploration(rep, PID, name, LateCloseScn, P, {"ps": 1, "free": 0} if tier == "quick" else {"ps": 2, "free": 1}, max_execs=cap)
+    for ename in ("object", "exception"):
+        for tr in ("popen", "via"):
+            name = f"failedclose/{ename}:{tr}"
+            if only and only not in name:
+                continue
+            harness.run_exploration(rep, PID, name, FailedCloseScn, {"error": ename, "transport": tr, "backend": "thread"}, {"ps": 1, "free": 0}, max_execs=cap)
     if not only or "both" in only:
         P = {"transport": "popen", "backend": "thread"}
         harness.run_exploration(rep, PID, "both/sync", BothCloseScn, P, b_sync, max_execs=cap)
